@@ -522,11 +522,13 @@ impl Sim {
                 for serial in serials {
                     let req = ring.req(serial).unwrap();
                     if req.zc_notif_pending {
-                        // The data was sent; the notification is delivered.
-                        ring.complete(serial, 0, abi::CQE_F_NOTIF, false);
-                    } else {
-                        ring.complete(serial, -libc::ECANCELED, 0, false);
+                        // The request itself has completed; what is
+                        // outstanding is the notification, which the network
+                        // stack posts when it lets go of the pages. No
+                        // cancellation reaches that.
+                        continue;
                     }
+                    ring.complete(serial, -libc::ECANCELED, 0, false);
                     n += 1;
                 }
                 ring.sync_cancels += n;
